@@ -220,14 +220,18 @@ def vsubCore (s : State) : State :=
 
 def stepEvent (p : Params) (s : State) : Ev → Option State
   | .envSeal d x =>
-    if s.sealed d || p.inp d != some x || !(d < p.g.nData) then none
+    -- the value is the one the environment provides; once the closure has finished, a data the environment was going
+    -- to emit may instead be flushed empty (its parked producer is skipped like every other vertex)
+    if s.sealed d || !(p.inp d == some x || (x.isNone && s.fin.isSome && s.running)) || !(d < p.g.nData) then none
     else if !s.running then some (sealData s d x)
-    else if d < p.g.nIn then some { sealData s d x with lateEnv := true }
+    -- after `run`: only data without a producer (an emitter the closure does not know about, or one that holds a
+    -- vertex closure open elsewhere — the model cannot tell, hence the ghost flag)
+    else if (p.g.producer d).isNone then some { sealData s d x with lateEnv := true }
     else none
   | .run =>
     if s.running then none
     -- every preset of a produced data has been delivered before the run
-    else if (List.range p.g.nData).all (fun d => d < p.g.nIn || (p.inp d).isNone || s.sealed d) then
+    else if (List.range p.g.nData).all (fun d => (p.g.producer d).isNone || (p.inp d).isNone || s.sealed d) then
       some { s with running := true }
     else none
   | .bind =>
